@@ -24,8 +24,14 @@ async def _impl_case(framing, max_size, chunks, mode):
     # livelock guard counts per case, not per batch
     asyncio.get_event_loop()._spin = 0
 
+    bound = sum(len(c) for c in chunks) + len(chunks) + 4
+
     async def reader():
         while True:
+            if len(out) > bound:
+                # more outcomes than the stream has bytes and chunks: stop instead of spinning
+                out.append(('X', 'Runaway'))
+                return
             try:
                 out.append(('M', bytes(await fr.receive_message())))
             except MemoryError:
@@ -34,6 +40,10 @@ async def _impl_case(framing, max_size, chunks, mode):
     async def settle():
         for _ in range(3):
             await asyncio.sleep(0)
+
+    async def quiesce():
+        # virtual time advances only when no task can run: the reader has taken all it can
+        await asyncio.sleep(1e-6)
 
     task = None
     if mode != 0:
@@ -45,9 +55,7 @@ async def _impl_case(framing, max_size, chunks, mode):
             await settle()
     if task is None:
         task = asyncio.ensure_future(reader())
-    await settle()
-    while not fr.queue.empty():
-        await settle()
+    await quiesce()
     task.cancel()
     try:
         await task
@@ -56,10 +64,37 @@ async def _impl_case(framing, max_size, chunks, mode):
     return out
 
 
+async def _cancel_probe(framing):
+    """Informational only (the property text does not speak about cancellation): `ab` arrives,
+    the waiting receive_message() is cancelled, a new call is made, `c\\n` arrives.  Returns what
+    the second call delivered."""
+    fr = framing.NewlineFramer(0)
+    t = asyncio.ensure_future(fr.receive_message())
+    fr.received_bytes(b'ab')
+    await asyncio.sleep(1e-6)
+    t.cancel()
+    try:
+        await t
+    except asyncio.CancelledError:
+        pass
+    t = asyncio.ensure_future(fr.receive_message())
+    fr.received_bytes(b'c\n')
+    await asyncio.sleep(1e-6)
+    if t.done() and not t.cancelled() and t.exception() is None:
+        return bytes(t.result())
+    t.cancel()
+    try:
+        await t
+    except BaseException:
+        pass
+    return None
+
+
 def _fmt_out(out):
     if not out:
         return '.'
-    return ' '.join('E' if o[0] == 'E' else 'M' + (o[1].hex() or '-') for o in out)
+    return ' '.join('E' if o[0] == 'E' else ('X' if o[0] == 'X' else 'M' + (o[1].hex() or '-'))
+                    for o in out)
 
 
 def _fmt_case(max_size, chunks):
@@ -72,41 +107,49 @@ def segments(stream):
     return parts[:-1], parts[-1]
 
 
+def newline_chunks(chunks):
+    """for each newline of the stream, in order: the length of the chunk that carried it (= the
+    final chunk of the segment that newline terminates)"""
+    return [len(c) for c in chunks for b in bytes(c) if b == NL]
+
+
 def oracle(max_size, chunks, out):
     """Returns None if the property holds on this trace, else a reason string."""
     stream = b''.join(bytes(c) for c in chunks)
     segs, rest = segments(stream)
+    final = newline_chunks(chunks)
 
     def fits(n):
         return max_size == 0 or n <= max_size
 
-    @lru_cache(None)
-    def go(i, j):
-        # segments i.. explained by outputs j..
-        if i == len(segs):
-            tail = out[j:]
-            if any(o[0] != 'E' for o in tail):
-                return False
-            return (not tail) or (not fits(len(rest)))
-        if j < len(out) and out[j] == ('M', segs[i]) and go(i + 1, j + 1):
-            return True
-        if not fits(len(segs[i])):
-            k = j
-            while k < len(out) and out[k][0] == 'E':
-                k += 1
-                if go(i + 1, k):
+    def explain(bounded):
+        @lru_cache(None)
+        def go(i, j):
+            # segments i.. explained by outputs j..
+            if i == len(segs):
+                tail = out[j:]
+                if any(o[0] != 'E' for o in tail):
+                    return False
+                return (not tail) or (not fits(len(rest)))
+            if j < len(out) and out[j] == ('M', segs[i]) and go(i + 1, j + 1):
+                # "a delivered message never exceeds the limit by more than its final chunk"
+                if not bounded or fits(len(segs[i])) or len(segs[i]) <= max_size + final[i]:
                     return True
-        return False
+            if not fits(len(segs[i])):
+                k = j
+                while k < len(out) and out[k][0] == 'E':
+                    k += 1
+                    if go(i + 1, k):
+                        return True
+            return False
+        return go(0, 0)
 
-    if not go(0, 0):
+    if not explain(False):
         return ('outputs are not "each segment delivered whole once, or dropped entirely '
                 '(>=1 MemoryError) only if over the limit, in order"')
-    # delivered message exceeds the limit by at most its final chunk
-    if max_size:
-        big = max((len(c) for c in chunks), default=0)
-        for o in out:
-            if o[0] == 'M' and len(o[1]) > max_size + big:
-                return 'delivered message exceeds limit by more than a chunk'
+    if not explain(True):
+        return ('delivered message exceeds limit by more than its final chunk (the chunk that '
+                'carried its newline)')
     return None
 
 
@@ -225,6 +268,8 @@ def evaluate(ctx, cases, modes, res):
                 res.disagreement(case, got, model[i])
         res.count('traces_with_memoryerror', any(o[0] == 'E' for o in out))
         res.count('messages_delivered', sum(o[0] == 'M' for o in out))
+        res.count('delivered_over_limit (final-chunk clause exercised)',
+                  sum(1 for o in out if lim and o[0] == 'M' and len(o[1]) > lim))
         res.count('cases_with_empty_chunk', any(len(c) == 0 for c in ch))
         if len(ch) >= 2 and any(NL in x for x in ch):
             res.nontrivial((lim, ch))
@@ -258,6 +303,13 @@ def run(ctx):
             res.violation('c06:frame', {'message': m.hex()}, 'frame(m) is not m + newline',
                           impl=framed.hex())
     res['scopes']['frame_calls'] = 300
+    # cancellation: outside the property (assumption in props/C06.json); recorded, not judged
+    try:
+        got = vloop.run(_cancel_probe(_framing))
+        res.count('cancel_probe_truncated' if got == b'c' else
+                  ('cancel_probe_whole' if got == b'abc' else 'cancel_probe_other'))
+    except Exception:      # noqa
+        res.count('cancel_probe_failed')
     # (b) generated
     ngen = (400000 if ctx.tier == 'thorough' else 60000) if ctx.deep else 5000
     gen = [random_case(rng) for _ in range(ngen)]
